@@ -240,9 +240,19 @@ impl MemReader {
         // I don't think there would ever be a case where we would not read on word boundaries, but just in case...
         let last = chunks.into_remainder();
         if !last.is_empty() {
-            let word = nix::sys::ptrace::read(pid, (src + offset) as *mut std::ffi::c_void)
-                .map_err(|err| (err, offset))?;
-            last.copy_from_slice(&word.to_ne_bytes()[..last.len()]);
+            match nix::sys::ptrace::read(pid, (src + offset) as *mut std::ffi::c_void) {
+                Ok(word) => last.copy_from_slice(&word.to_ne_bytes()[..last.len()]),
+                Err(err) => {
+                    // A whole word starting at the tail may run into unreadable memory although
+                    // the tail itself is readable: fetch the word that *ends* at the end of the
+                    // requested range instead.
+                    let back = std::mem::size_of::<usize>() - last.len();
+                    let start = (src + offset).checked_sub(back).ok_or((err, offset))?;
+                    let word = nix::sys::ptrace::read(pid, start as *mut std::ffi::c_void)
+                        .map_err(|_| (err, offset))?;
+                    last.copy_from_slice(&word.to_ne_bytes()[back..]);
+                }
+            }
         }
 
         Ok(dst.len())
